@@ -6,6 +6,7 @@ from ..exprs import dotted, unparse, walk_no_nested
 from ..effects import rule_F6
 from ..pathrules import rule_T5, rule_T8i
 from ..rowfacts import rule_M1, rule_M3
+from ..persist import rule_P4_sampler_subset
 from ..intervals import rule_M6
 
 LEVEL_TEXT = ('Static who-may-call / who-may-write tables, the loop contract of run() on its '
@@ -141,6 +142,10 @@ def run(ctx):
     rule_M3(ctx)
     rule_M1(ctx)
     rule_M6(ctx)
+    # budget across resumes: the call counter is refreshed by every checkpoint update
+    k = rule_P4_sampler_subset(ctx, ('n_like/', '=n_like', 'first-batch', 'batch-checkpointed'),
+                               'the call counter n_like')
+    ctx.require(k >= 4, 'only %d checkpoint obligations about n_like found (floor 4)' % k)
     ctx.floor('F6', 6, 'who-may entries')
     ctx.floor('T5', 12, 'loop-contract obligations')
     ctx.floor('T8', 8, 'accounting obligations')
